@@ -1081,7 +1081,10 @@ func replayConfirms(run *PropRun, g *ObGroup, path string) bool {
 	var ro ReplayOutcome
 	if g.Status != "failed" {
 		ro = ReplayOutcome{Detail: "no model: the obligation is undischarged, not refuted"}
-	} else if g.ReplayGo != "" {
+	} else if g.ReplayGo != "" || g.ReplayGen != nil {
+		if g.ReplayGen != nil {
+			g.ReplayGo = g.ReplayGen(g.Model)
+		}
 		ro = replayCustom(run, g)
 	} else {
 		ro = replayFunction(run, g)
